@@ -4,3 +4,7 @@ import Tumfl.Props.C04
 #print axioms Tumfl.Props.C04_no_require
 #print axioms Tumfl.Props.C12_untouched
 #print axioms Tumfl.Props.C12_errors
+#print axioms Tumfl.Props.C04_terminates
+#print axioms Tumfl.Props.C04_outcome_unique
+#print axioms Tumfl.Props.C04_formats_valid
+#print axioms Tumfl.Props.C04_expr_cycle_diverges
